@@ -10,8 +10,12 @@ listings the font knows are the listings on disk: "the UFO on disk is byte-ident
 font last read or wrote".  It never mentions modification times, in-memory values or dirty flags.
 `report s` = the dictionary `Font.testForExternalChanges()` returns in state `s`;
 `quietReport s` = the dictionary that names nothing.
+`Tidy s` = nothing is pending in the font's bookkeeping beyond the stamps (no recorded layer deletion
+or default-layer change left to replay, no name both listed and scheduled, names unique on disk);
+`SyncedM s` = `Synced s` except for glyphs that exist in memory only (created or renamed in memory
+under a name the UFO does not hold yet).
 -/
-import DefconModel.Lemmas.Ext
+import DefconModel.Lemmas.ExtReload
 
 namespace DefconModel.Props.C05
 open DefconModel DefconModel.Ext
@@ -29,29 +33,45 @@ theorem synced_open (zip : Bool) (d : Disk) (empty : Blob) (hn : (layerNames d).
     (hi : (AL.keys d.images).Nodup) (hd : (AL.keys d.data).Nodup) :
     Synced (openFont zip d empty) := synced_openFont zip d empty hn hi hd
 
-/-- Every quiet operation keeps the font in step with its UFO: lazy reads of top-level objects,
-glyphs, images and data; edits of their values; deletion of glyphs, images and data (scheduled for
-deletion, with a stamp of the file scheduled); touch-only external edits of any stamped file (new
-modification time, same bytes); the test itself (which re-binds the layers and replaces the font's
-reader); reloading a top-level object; save-as to a new path (the font is then in step with the UFO
-it wrote, which is the UFO from then on). -/
-theorem synced_step (s : State) (h : Synced s) (op : Op) (hq : Quiet op) : Synced (step s op).1 :=
-  synced_step_aux h op hq
+/-- … and its bookkeeping is tidy (glyph names unique within every layer of the UFO). -/
+theorem tidy_open (zip : Bool) (d : Disk) (empty : Blob) (hi : (AL.keys d.images).Nodup) (hd : (AL.keys d.data).Nodup)
+    (hg : ∀ ln dl, AL.get? d.layers ln = some dl → (AL.keys dl.glifs).Nodup) : Tidy (openFont zip d empty) :=
+  tidy_openFont zip d empty ⟨hg, hi, hd⟩
 
-/-- SOUND (histories).  For every UFO (layer names, image names and data paths unique), package or
-zip, and every interleaving of quiet operations — in-memory edits, lazy reads, deletions, touch-only
-external edits, tests, save-as — the next test reports nothing.  This is the proved part of
-`DetectSound` below. -/
+/-- Every quiet operation keeps the font in step with its UFO (and its bookkeeping tidy): lazy reads
+of top-level objects, glyphs, images and data; edits of their values; deletion of glyphs, images and
+data (scheduled for deletion, with a stamp of the file scheduled); touch-only external edits of any
+stamped file (new modification time, same bytes); the test itself (which re-binds the layers and
+replaces the font's reader); reloading a top-level object; the in-place save (every stamp then holds
+what was just written, nothing stays scheduled for deletion); save-as to a new path (the font is then
+in step with the UFO it wrote, which is the UFO from then on). -/
+theorem synced_step (s : State) (h : Synced s) (ht : Tidy s) (op : Op) (hq : Quiet op) :
+    Synced (step s op).1 ∧ Tidy (step s op).1 := inv_step h ht op hq
+
+/-- SOUND (histories).  For every UFO (layer names, glyph names within a layer, image names and data
+paths unique), package or zip, and every interleaving of quiet operations — in-memory edits, lazy
+reads, deletions, touch-only external edits, tests, in-place saves at any point, save-as — the next
+test reports nothing.  This is the proved part of `DetectSound` below. -/
 theorem detect_sound_partial (zip : Bool) (d : Disk) (empty : Blob) (hn : (layerNames d).Nodup)
-    (hi : (AL.keys d.images).Nodup) (hd : (AL.keys d.data).Nodup) (ops : List Op)
+    (hi : (AL.keys d.images).Nodup) (hd : (AL.keys d.data).Nodup)
+    (hg : ∀ ln dl, AL.get? d.layers ln = some dl → (AL.keys dl.glifs).Nodup) (ops : List Op)
     (hq : ∀ op ∈ ops, Quiet op) :
     report (run (openFont zip d empty) ops) = quietReport (run (openFont zip d empty) ops) :=
-  report_quiet (synced_run_aux (synced_openFont zip d empty hn hi hd) ops hq)
+  report_quiet (inv_run (synced_openFont zip d empty hn hi hd) (tidy_openFont zip d empty ⟨hg, hi, hd⟩) ops hq).1
 
-/-- operations that change no byte on disk: the quiet ones and the structural in-memory edits
-(creating a glyph or a layer, deleting or reordering layers, changing the default layer) -/
+/-- … and for histories without in-place saves the glyph names need not even be unique (the
+statement of the earlier rounds, kept at full strength). -/
+theorem detect_sound_partial_savefree (zip : Bool) (d : Disk) (empty : Blob) (hn : (layerNames d).Nodup)
+    (hi : (AL.keys d.images).Nodup) (hd : (AL.keys d.data).Nodup) (ops : List Op)
+    (hq : ∀ op ∈ ops, Quiet op) (hs : ∀ op ∈ ops, ∀ a b, op ≠ .save a b) :
+    report (run (openFont zip d empty) ops) = quietReport (run (openFont zip d empty) ops) :=
+  report_quiet (synced_run_nosave (synced_openFont zip d empty hn hi hd) ops hq hs)
+
+/-- operations that change no byte on disk that the font has not written itself: the quiet ones and
+the structural in-memory edits (creating or renaming a glyph, creating a layer, deleting or
+reordering layers, changing the default layer) -/
 def ByteQuiet : Op → Prop
-  | .gnew _ _ | .lnew _ | .ldel _ | .lorder _ | .ldefault _ => True
+  | .gnew _ _ | .grename _ _ _ | .lnew _ | .ldel _ | .lorder _ | .ldefault _ => True
   | op => Quiet op
 
 /-- The full soundness statement of the property: nothing is reported as long as no byte changes
@@ -270,6 +290,66 @@ theorem reload_file_converges (s : State) (img : Bool) (n : String) (f : File)
   obtain ⟨s', h1, h2, h3⟩ := reloadFile_spec img hz hf
   exact ⟨s', h1, h2, h3, by rw [h2]; exact isModifiedFile_of_stamp hf⟩
 
+/-! ## 4a. Reloading everything the report lists -/
+
+/-- RELOAD, everything.  The font is in step with its UFO (and its bookkeeping tidy).  Another
+program then changes the UFO in any way that deletes nothing the font lists (`Keeps`: there is no
+reload method for deletions) — it may rewrite, touch, create or delete top-level files, rewrite and
+add glyphs, change layer infos, rewrite and add images and data files, add layers, reorder them,
+change the default layer (the result `d'` is a UFO: names unique, its default layer exists).  Then
+`testForExternalChanges`, then the reload method for every entry of the report — `reloadInfo/…/
+reloadLib` for the flagged objects, `reloadImages`, `reloadData` for the modified and added names,
+`reloadLayers` with the added layers, the info and the modified and added glyphs of the modified
+layers, the order and the default flags: no reload raises, and the second test names nothing. -/
+theorem reload_all_converges (s : State) (h : Synced s) (ht : Tidy s) (d' : Disk) (hd : DiskOk d')
+    (hn : (layerNames d').Nodup) (hdef : ∃ dn, d'.default = some dn ∧ dn ∈ layerNames d') (hk : Keeps s.disk d') :
+    ∃ s3, reloadAuto (test { s with disk := d' }).1 = (s3, none) ∧ s3.disk = d' ∧
+      report s3 = quietReport s3 := by
+  obtain ⟨s3, e, hdisk, hs, _⟩ := reload_all h ht hd hn hdef hk
+  exact ⟨s3, e, hdisk, report_settled hs⟩
+
+/-- RELOAD, layers (after the repairs F58–F60).  In the same situation, after the reloads: the
+second report lists nothing for layers (none added, none deleted, no order change, no default-layer
+change, no layer entry); the layer set is the one a fresh open of the UFO reads — the same order, the
+same default layer, the same layer names; every layer, the ones just added included, is bound to an
+open glyph set of the font's reader that lists the glyphs on disk (F58: unread glyphs can be read,
+`usable_lazy_read`); and the layer history holds no deletion and no default-layer change that a later
+save would replay over the UFO (F60). -/
+theorem reload_layers_converges (s : State) (h : Synced s) (ht : Tidy s) (d' : Disk) (hd : DiskOk d')
+    (hn : (layerNames d').Nodup) (hdef : ∃ dn, d'.default = some dn ∧ dn ∈ layerNames d') (hk : Keeps s.disk d') :
+    ∃ s3, reloadAuto (test { s with disk := d' }).1 = (s3, none) ∧
+      ((report s3).added = [] ∧ (report s3).deleted = [] ∧ (report s3).order = false ∧
+        (report s3).defaultLayer = false ∧ (report s3).modified = []) ∧
+      (s3.font.order = (openFont s.zip d' s.emptyGlyph).font.order ∧
+        s3.font.default = (openFont s.zip d' s.emptyGlyph).font.default ∧
+        ∀ ln, AL.contains s3.font.layers ln = AL.contains (openFont s.zip d' s.emptyGlyph).font.layers ln) ∧
+      (∀ ln, ln ∈ s3.font.order → Bound s3 ln) ∧
+      (∀ a, a ∈ s3.font.history → TameAction s3.font.default a) := by
+  obtain ⟨s3, e, hdisk, hs, hb, hh, honly⟩ := reload_all h ht hd hn hdef hk
+  have hq := report_settled hs
+  refine ⟨s3, e, ?_, ⟨?_, ?_, ?_⟩, hb, hh⟩
+  · rw [hq]; exact ⟨rfl, rfl, rfl, rfl, rfl⟩
+  · rw [hs.order, hdisk]; rfl
+  · rw [hs.default, hdisk]; rfl
+  · intro ln
+    have e2 : AL.contains (openFont s.zip d' s.emptyGlyph).font.layers ln = AL.contains d'.layers ln :=
+      contains_map_val openLayer d'.layers ln
+    rw [e2]
+    cases hc : AL.contains s3.font.layers ln with
+    | true =>
+      have := honly ln hc
+      rw [hs.order, hdisk] at this
+      exact ((AL_mem_keys_iff_contains _ _).1 this).symm
+    | false =>
+      cases hc2 : AL.contains d'.layers ln with
+      | false => rfl
+      | true =>
+        exfalso
+        have hin : ln ∈ s3.font.order := by
+          rw [hs.order, hdisk]; exact (AL_mem_keys_iff_contains _ _).2 hc2
+        obtain ⟨l, _, hg, _⟩ := hs.layers ln hin
+        simp [AL.contains, hg] at hc
+
 /-! ## 4b. Save-as -/
 
 /-- SAVE-AS, in step.  A save-as (to a path where nothing exists) from a font in step with its UFO
@@ -295,6 +375,83 @@ theorem saveas_then_added_is_reported (s s' : State) (tD tS : Time) (hr : saveAs
     (hon : gn ∈ glifNames d' ln) (hk : gn ∉ l.keys) : gn ∈ layerAdded d' ln l := by
   have hs := (saveAs_sched hr).1 ln l hl
   exact (mem_layerAdded_iff d' ln l gn).2 ⟨hon, hk, Or.inl (by rw [hs]; rfl)⟩
+
+/-! ## 4c. In-place save -/
+
+/-- SAVE, in step.  A completed in-place save of a font that is in step with its UFO — or in step
+except for glyphs that exist in memory only — leaves the font in step with the UFO: every top-level
+object, every glyph that was written, every image and data file that was written is stamped with
+what was just written, the layer set has nothing left to replay; a test right after it reports
+nothing, and so does every test after any further quiet history (`synced_step`). -/
+theorem save_resyncs (s s' : State) (h : SyncedM s) (ht : Tidy s) (tD tS : Time) (hr : save s tD tS = .ok s') :
+    Synced s' ∧ Tidy s' ∧ report s' = quietReport s' :=
+  ⟨(synced_save_M h ht hr).1, (synced_save_M h ht hr).2, report_quiet (synced_save_M h ht hr).1⟩
+
+/-- SAVE, pending deletions.  After a completed in-place save nothing is scheduled for deletion any
+more — no glyph in any layer of the layer order, no image, no data file: the files were removed. -/
+theorem save_drops_schedules (s s' : State) (h : SyncedM s) (ht : Tidy s) (tD tS : Time) (hr : save s tD tS = .ok s') :
+    (∀ ln l, ln ∈ s'.font.order → getLayer s' ln = some l → l.sched = []) ∧
+      s'.font.images.sched = [] ∧ s'.font.data.sched = [] := save_sched h ht hr
+
+example : (run (openFont false demoDisk 9) [.gget "fore" "A", .gdel "fore" "A", .fget true "i.png", .fset true "i.png" none,
+      .save 100 101]).font.images.sched = [] ∧
+    (getLayer (run (openFont false demoDisk 9) [.gget "fore" "A", .gdel "fore" "A", .fget true "i.png", .fset true "i.png" none,
+      .save 100 101]) "fore").map (·.sched) = some [] ∧
+    (run (openFont false demoDisk 9) [.gget "fore" "A", .gdel "fore" "A", .fget true "i.png", .fset true "i.png" none,
+      .save 100 101]).disk.images = [] := by decide
+
+/-! ## 4d. Creating and renaming glyphs in memory -/
+
+/-- EDITING.  Reading, editing, deleting, creating (`newGlyph`) and renaming (`glyph.name = …`)
+glyphs, reading and editing top-level objects and layer info keep the font in step with its UFO
+except for glyphs that exist in memory only.  Renaming schedules the file of the old name for
+deletion with the stamp of that file; the glyph under its new name carries no stamp (fix F95) and is
+dirty: the new name exists in memory only until the next save. -/
+theorem edit_keeps_syncedM (s : State) (h : SyncedM s) (ht : Tidy s) (op : Op) (he : EditOp op) :
+    SyncedM (step s op).1 ∧ Tidy (step s op).1 := edit_step h ht op he
+
+/-- EDITING, the report.  In such a state the test names nothing at all except, per layer, as
+`deleted` … -/
+theorem report_memory_only (s : State) (h : SyncedM s) :
+    report s = { quietReport s with modified := s.font.order.filterMap (memOnlyEntry s) } := report_memOnly h
+
+/-- … exactly the glyphs that exist in memory only (finding F8.1: a glyph that was created or renamed
+in memory and not saved yet is reported as externally deleted — and nothing else is ever wrong). -/
+theorem memory_only_exact (d : Disk) (ln : String) (dl : DLayer) (l : MLayer) (hd : AL.get? d.layers ln = some dl)
+    (h : LayerSyncedM ln dl l) (gn : String) :
+    gn ∈ layerDeleted d ln l ↔ gn ∈ l.keys ∧ gn ∉ AL.keys dl.glifs ∧ MemOnly l gn := mem_layerDeleted_M hd h gn
+
+/-- EDITING, then SAVE.  From a font in step: any sequence of such edits (glyphs created, renamed —
+loaded or not —, deleted, created again, edited …), then a completed in-place save: the font is in
+step again, the test reports nothing. -/
+theorem edits_then_save_resyncs (s s' : State) (h : Synced s) (ht : Tidy s) (ops : List Op)
+    (he : ∀ op ∈ ops, EditOp op) (tD tS : Time) (hr : save (run s ops) tD tS = .ok s') :
+    Synced s' ∧ Tidy s' ∧ report s' = quietReport s' := by
+  obtain ⟨h1, h2⟩ := edit_run h.toM ht ops he
+  exact save_resyncs _ _ h1 h2 tD tS hr
+
+/-- RE-CREATION.  Creating a glyph under a name whose file is on disk — a glyph deleted in memory
+and created again under the same name, or a glyph replaced by a fresh one — keeps the font in step:
+the pending deletion is dropped, the new glyph carries no stamp, nothing is reported (fix F57). -/
+theorem recreate_keeps_synced (s s' : State) (h : Synced s) (ht : Tidy s) (ln gn : String)
+    (hon : gn ∈ glifNames s.disk ln) (hr : newGlyph s ln gn = .ok s') :
+    Synced s' ∧ report s' = quietReport s' :=
+  ⟨synced_newGlyph_onDisk h ht hon hr, report_quiet (synced_newGlyph_onDisk h ht hon hr)⟩
+
+/-- RENAMING onto a name whose file is on disk (deleted in memory before, or simply replaced) keeps
+the font in step: the old file is scheduled for deletion with its own stamp, the file of the new name
+is not compared with anything the glyph never read (fix F95), nothing is reported. -/
+theorem rename_onto_file_keeps_synced (s : State) (h : Synced s) (ht : Tidy s) (ln old new : String)
+    (hon : new ∈ glifNames s.disk ln) :
+    Synced (renameGlyph s ln old new).1 ∧
+      report (renameGlyph s ln old new).1 = quietReport (renameGlyph s ln old new).1 :=
+  ⟨synced_renameGlyph_onDisk h ht ln old new hon, report_quiet (synced_renameGlyph_onDisk h ht ln old new hon)⟩
+
+/-- F8.1 by renaming: the new name of a renamed glyph is reported as externally deleted until saved;
+the old file, scheduled for deletion, is not reported as added. -/
+theorem f8_renamed_glyph_violated :
+    (report (run (openFont false demoDisk 9) [.grename "fore" "A" "A2"])).modified =
+      [("fore", { info := false, modified := [], added := [], deleted := ["A2"] })] := by decide
 
 /-! ## 5. The font stays usable after a test -/
 
@@ -327,8 +484,19 @@ def demo : State := run (openFont false demoDisk 9)
   [.touch .info, .gget "fore" "A", .fget true "i.png", .pset .info 3, .gset "fore" "A" 6, .fset false "d.txt" none,
    .xpart .info .touch (some 4), .xglyph "fore" "A" .touch (some 5), .test]
 
-example : Synced demo :=
-  synced_run_aux (synced_openFont false demoDisk 9 (by decide) (by decide) (by decide)) _ (by
+/-- (non-vacuity helper) the glyph names of the demonstration UFO are unique -/
+def demoGlifs : ∀ ln dl, AL.get? demoDisk.layers ln = some dl → (AL.keys dl.glifs).Nodup := by
+  intro ln dl h
+  simp only [demoDisk, AL.get?_cons, AL.get?_nil] at h
+  split at h
+  · injection h with h; subst h; decide
+  · split at h
+    · injection h with h; subst h; decide
+    · cases h
+
+example : Synced demo ∧ Tidy demo :=
+  inv_run (synced_openFont false demoDisk 9 (by decide) (by decide) (by decide))
+    (tidy_open false demoDisk 9 (by decide) (by decide) demoGlifs) _ (by
     intro op hop
     simp only [List.mem_cons, List.mem_nil_iff, or_false] at hop
     rcases hop with h | h | h | h | h | h | h | h | h <;> subst h <;> trivial)
@@ -365,5 +533,89 @@ example : (report (step demoSaveAs (.xglyph "fore" "A" (.write 5) (some 3))).1).
     (report (run demoSaveAs [.xglyph "fore" "A" (.write 5) (some 3), .test, .reload])).modified = [] := by decide
 example : (report (step demoSaveAs (.xfile true "i.png" (.write 7) (some 4))).1).images.added = ["i.png"] := by decide
 example : Bound (test demo).1 "fore" := usable_after_test demo "fore" _ (by decide) (by decide) rfl
+
+/-- another program rewrites fontinfo, creates kerning.plist, rewrites the loaded glyph `A`, adds a
+glyph, changes a layer info, adds an image, rewrites the data file the font has scheduled for
+deletion, adds a layer, reorders the layers and changes the default layer — and deletes nothing -/
+def demoDisk2 : Disk :=
+  { parts := [(.info, ⟨11, 6⟩), (.lib, ⟨2, 0⟩), (.kerning, ⟨21, 6⟩)]
+    layers := [("new", { info := 4, glifs := [("N", ⟨14, 6⟩)] }), ("back", { info := 3, glifs := [("B", ⟨13, 6⟩)] }),
+               ("fore", { info := 0, glifs := [("A", ⟨12, 6⟩), ("C", ⟨15, 6⟩)] })]
+    default := some "back"
+    images := [("i.png", ⟨7, 0⟩), ("j.png", ⟨17, 6⟩)], data := [("d.txt", ⟨18, 6⟩)] }
+example : Keeps demo.disk demoDisk2 := by
+  refine ⟨by decide, ?_, by decide, by decide⟩
+  intro ln gn hgn
+  by_cases e1 : ln = "fore"
+  · subst e1; revert gn; decide
+  · by_cases e2 : ln = "back"
+    · subst e2; revert gn; decide
+    · have : glifNames demo.disk ln = [] := by
+        have hl : demo.disk.layers = [("fore", { info := 0, glifs := [("A", ⟨5, 5⟩)] }), ("back", {})] := by decide
+        simp [glifNames, hl, AL.get?_cons, Ne.symm e1, Ne.symm e2]
+      rw [this] at hgn
+      cases hgn
+example : DiskOk demoDisk2 := by
+  refine ⟨?_, by decide, by decide⟩
+  intro ln dl h
+  simp only [demoDisk2, AL.get?_cons, AL.get?_nil] at h
+  split at h
+  · injection h with h; subst h; decide
+  · split at h
+    · injection h with h; subst h; decide
+    · split at h
+      · injection h with h; subst h; decide
+      · cases h
+example : (report { demo with disk := demoDisk2 }).added = ["new"] ∧ (report { demo with disk := demoDisk2 }).order = true ∧
+    (report { demo with disk := demoDisk2 }).defaultLayer = true ∧
+    (report { demo with disk := demoDisk2 }).modified =
+      [("fore", { info := false, modified := ["A"], added := ["C"], deleted := [] }),
+       ("back", { info := true, modified := [], added := ["B"], deleted := [] })] ∧
+    (report { demo with disk := demoDisk2 }).images.added = ["j.png"] ∧
+    (report { demo with disk := demoDisk2 }).data.added = ["d.txt"] := by decide
+example : (reloadAuto (test { demo with disk := demoDisk2 }).1).2 = none ∧
+    report (reloadAuto (test { demo with disk := demoDisk2 }).1).1 =
+      quietReport (reloadAuto (test { demo with disk := demoDisk2 }).1).1 ∧
+    (reloadAuto (test { demo with disk := demoDisk2 }).1).1.font.order = ["new", "back", "fore"] ∧
+    (reloadAuto (test { demo with disk := demoDisk2 }).1).1.font.default = some "back" := by decide
+/-- … and the next in-place save keeps every glyph file (F60) -/
+example : ((save (reloadAuto (test { demo with disk := demoDisk2 }).1).1 100 101).toOption.map fun s' =>
+    s'.disk.layers.map fun p => (p.1, AL.keys p.2.glifs)) =
+      some [("new", ["N"]), ("back", ["B"]), ("fore", ["A", "C"])] := by decide
+
+/-- in-place saves in the middle of a quiet history: values edited, a glyph and an image deleted in
+memory, save, the deleted image created again, save, test -/
+def demoSaves : List Op :=
+  [.touch .info, .pset .info 3, .gget "fore" "A", .gset "fore" "A" 6, .fget true "i.png", .fset true "i.png" none,
+   .save 100 101, .xpart .info .touch (some 4), .fset true "i.png" (some 7), .gdel "fore" "A", .save 102 103, .test]
+example : ∀ op ∈ demoSaves, Quiet op := by
+  intro op hop
+  simp only [demoSaves, List.mem_cons, List.mem_nil_iff, or_false] at hop
+  rcases hop with h | h | h | h | h | h | h | h | h | h | h | h <;> subst h <;> trivial
+example : report (run (openFont false demoDisk 9) demoSaves) = quietReport (run (openFont false demoDisk 9) demoSaves) := by
+  decide
+example : (run (openFont true demoDisk 9) demoSaves).disk.layers = [("fore", { info := 0, glifs := [] }), ("back", {})] := by
+  decide
+example : Tidy (openFont false demoDisk 9) := tidy_open false demoDisk 9 (by decide) (by decide) demoGlifs
+/-- an editing session: a glyph created, one renamed (never read before), one renamed onto a name on
+disk after that glyph was deleted; the new names are reported as deleted (F8.1) until the save -/
+def demoEdits : List Op := [.gnew "fore" "new", .grename "fore" "A" "A2", .gnew "back" "B", .gdel "back" "B", .gnew "back" "B"]
+example : ∀ op ∈ demoEdits, EditOp op := by
+  intro op hop
+  simp only [demoEdits, List.mem_cons, List.mem_nil_iff, or_false] at hop
+  rcases hop with h | h | h | h | h <;> subst h <;> trivial
+example : (report (run (openFont false demoDisk 9) demoEdits)).modified =
+    [("fore", { info := false, modified := [], added := [], deleted := ["new", "A2"] }),
+     ("back", { info := false, modified := [], added := [], deleted := ["B"] })] := by decide
+example : (save (run (openFont false demoDisk 9) demoEdits) 100 101 matches .ok _) = true := by decide
+example : report (run (openFont false demoDisk 9) (demoEdits ++ [.save 100 101])) =
+    quietReport (run (openFont false demoDisk 9) (demoEdits ++ [.save 100 101])) := by decide
+/-- deletion and re-creation under the same name, renaming onto a file: nothing is reported -/
+example : report (run (openFont false demoDisk 9) [.gget "fore" "A", .gdel "fore" "A", .gnew "fore" "A"]) =
+    quietReport (run (openFont false demoDisk 9) [.gget "fore" "A", .gdel "fore" "A", .gnew "fore" "A"]) := by decide
+def demoTwo : Disk := { demoDisk with layers := [("fore", { info := 0, glifs := [("A", ⟨5, 0⟩), ("B", ⟨6, 0⟩)] })] }
+example : report (run (openFont false demoTwo 9) [.gdel "fore" "B", .grename "fore" "A" "B"]) =
+    quietReport (run (openFont false demoTwo 9) [.gdel "fore" "B", .grename "fore" "A" "B"]) := by decide
+example : "B" ∈ glifNames (run (openFont false demoTwo 9) [.gdel "fore" "B"]).disk "fore" := by decide
 
 end DefconModel.Props.C05
